@@ -89,10 +89,10 @@ def pool : PM (Option Pool) := do
   if inst == 0 then return none
   return some { workers := max 1 k, script := fun _ => rs, inWorkerThread := inw != 0 }
 
-def heapOf (vals : Array Int) : Heap Int := fun a => vals.getD a 0
+def heapOf (vals : Array Int) : Heap Int := ⟨fun a => vals.getD a 0⟩
 
 def render (ok : Bool) (used : Bool) (H : Nat) (h : Heap Int) : String :=
-  let cells := (List.range H).map fun a => toString (h a)
+  let cells := (List.range H).map fun a => toString (h.get a)
   String.intercalate " " ((if ok then "ok" else "raise") :: (if used then "1" else "0") :: cells)
 
 def runCase : PM String := do
